@@ -354,9 +354,58 @@ def count_expressions(report):
                                  rule, limit - 1, limit, verdicts))
 
 
+def corrected_rows(report):
+    """
+    A CID built row by row in a program (add_data_format_row / add_field_format_row / add_check_row): a row that is refused
+    declares nothing -- the corrected row of the same name is accepted ('each with a unique name' speaks about the fields that
+    were declared), a second row of an accepted name is refused, and the fields end up in the order of the accepted rows.
+    """
+    import cutplace
+    from cutplace import errors
+    bad_rows = {"unknown type": ["amount", "", "", "", "NoSuchType"], "broken length": ["amount", "", "", "1...x", "Integer"],
+                "broken rule": ["amount", "", "", "", "Integer", "1...x"], "example outside the rule": ["amount", "7", "", "", "Integer", "10...20"],
+                "bad mark": ["amount", "", "maybe", "", "Integer"], "lengths the wrong way round": ["amount", "", "", "5...2", "Text"],
+                "empty choice": ["amount", "", "", "", "Choice", ""], "keyword as type": ["amount", "", "", "", "class"]}
+    for fmt in ("delimited", "fixed"):
+        for label, bad in sorted(bad_rows.items()):
+            report.replayed += 1
+            steps = []
+            cid = cutplace.Cid()
+            cid.add_data_format_row(["format", fmt])
+            length = "3" if fmt == "fixed" else ""
+            first = ["first", "", "", length, "Text"]
+            good = ["amount", "12", "", "2" if fmt == "fixed" else "", "Integer", "10...20"]
+            bad_row = list(bad)
+            if fmt == "fixed" and label not in ("broken length", "lengths the wrong way round"):
+                bad_row[3:4] = ["2"]
+            for what, row, want in (("first field", first, "accepted"), ("refused row (%s)" % label, bad_row, "refused"),
+                                    ("corrected row of the same name", good, "accepted"), ("the same row again", good, "refused"),
+                                    ("another field", ["last", "", "", length, "Text"], "accepted")):
+                try:
+                    cid.add_field_format_row(list(row))
+                    got = "accepted"
+                except errors.InterfaceError as error:
+                    got = "refused"
+                    text = str(error)
+                except Exception as error:  # noqa
+                    got = "%s: %s" % (type(error).__name__, error)
+                steps.append((what, row, got))
+                if got != want:
+                    report.violation("c09", {"corrected_rows": label, "format": fmt}, want, got,
+                                     "%s CID built row by row: %s %r is %s but must be %s%s; steps so far %r" % (
+                                         fmt, what, row, got, want, " (%s)" % text if got == "refused" else "", steps))
+                    break
+            else:
+                if list(cid.field_names) != ["first", "amount", "last"]:
+                    report.violation("c09", {"corrected_rows": label, "format": fmt}, ["first", "amount", "last"], list(cid.field_names),
+                                     "%s CID built row by row with a refused row (%s) in between: fields are %r" % (fmt, label, list(cid.field_names)))
+    report.notes["corrected_rows"] = "row-level API: a refused field row followed by its correction, 8 kinds of refusal x 2 formats"
+
+
 def run(tier, report):
     core.import_repo()
     count_expressions(report)
+    corrected_rows(report)
     result = core.tlc("MCCidLoad", "CidLoad_quick.cfg" if tier == "quick" else "CidLoad_deep.cfg", timeout=7000)
     core.require_coverage(result, ["ReadRow", "Finish"], "CidLoad")
     report.add_tlc("CidLoad: base CIDs x one defect of the catalogue at every applicable row x row-level rewrites", result)
